@@ -101,6 +101,10 @@ def stepWith (oracle : Case → Summary → Bool) (d : DSt) (fields : List Strin
     match parseSummary impl with
     | some i => (d, ⟨showSummary m, agrees d.client m i, oracle c m, oracle c i, "-"⟩)
     | none => (d, ⟨showSummary m, false, oracle c m, false, "-"⟩)
+  | ["resume", "fails"] =>
+    -- the reconnection attempt fails before a stream exists: its error is returned, the loss is not reported again
+    let ms := "fails:disc=0:err=true"
+    (d, ⟨ms, ms == impl, true, ms == impl, "-"⟩)
   | ["resume", "refused"] =>
     -- the server refuses the resumption, a fresh session is bound and stream management enabled again: the request
     -- still carries the old id and count, the NEW session starts counting at zero under the new id
